@@ -1,5 +1,7 @@
 package main
 
+import "strings"
+
 // C18 — logout redirects only to post-logout URIs registered for the proven client (DESIGN §5 C18).
 
 func init() {
@@ -41,6 +43,11 @@ func init() {
 		{ID: "E8.hint.verifier-per-request-issuer.only", Fn: "op.(*Provider).IDTokenHintVerifier", Kind: "ret any", Max: 1},
 		{ID: "E1.hint.caller.authorize", Fn: "op.ValidateAuthReqIDTokenHint", P: []string{"ctx", "idTokenHint", "verifier"}, Kind: "ret ok", Pat: "ret($claims.GetSubject(), nil)", Max: 1,
 			Req: []string{"def($claims, op.VerifyIDTokenHint(_, $idTokenHint, $verifier), 0)", "ok(op.VerifyIDTokenHint(_, $idTokenHint, $verifier)) || errAs(op.VerifyIDTokenHint(_, $idTokenHint, $verifier), IDTokenHintExpiredError{})"}},
+	}
+	for _, o := range obs {
+		if strings.HasPrefix(o.ID, "E8.hint.verifier-per-request-issuer") {
+			sharedObs["C15"] = append(sharedObs["C15"], o) // token exchange verifies subject / actor tokens through this verifier
+		}
 	}
 	register(&PropSpec{
 		ID: "C18",
